@@ -584,3 +584,74 @@ func c08ReplayDoc(t *testing.T, doc map[string]any) {
 		t.Fatalf("VERIF-VIOLATION property=C08 replay=%s :: %s", os.Getenv("VERIF_REPLAY_FILE"), viol)
 	}
 }
+
+// TestC08GenCorpus (VERIF_GEN_CORPUS=1) writes grammar-generated seeds for
+// FuzzConnStream: accepted hellos sealed to the fixed key, retry flights,
+// GREASE and plain hellos, with record tails.
+func TestC08GenCorpus(t *testing.T) {
+	if os.Getenv("VERIF_GEN_CORPUS") == "" {
+		t.Skip("set VERIF_GEN_CORPUS=1 to regenerate the seed corpus")
+	}
+	dir := "testdata/fuzz/FuzzConnStream"
+	os.MkdirAll(dir, 0o755)
+	n := 0
+	write := func(client, backend, sched []byte, keys bool) {
+		n++
+		body := fmt.Sprintf("go test fuzz v1\n[]byte(%q)\n[]byte(%q)\n[]byte(%q)\nbool(%v)\n", client, backend, sched, keys)
+		os.WriteFile(fmt.Sprintf("%s/seed-%03d", dir, n), []byte(body), 0o644)
+	}
+	key := c08FixedKey
+	gen := rapid.Custom(func(rt *rapid.T) [3][]byte {
+		tp := hello.GenTuple(rt, hello.TupleOpts{PublicName: key.PublicName})
+		suite := key.Suites[rapid.IntRange(0, 2).Draw(rt, "suite")]
+		sl, err := hello.NewSealer(key.Config, key.Priv.PublicKey().Bytes(), suite, key.ID)
+		if err != nil {
+			rt.Fatalf("%v", err)
+		}
+		enc := hello.Encode(hello.Compress(tp.Inner, tp.RunStart, tp.RunLen), make([]byte, tp.Pad%64))
+		m1, err := sl.SealOuter(tp.Outer, enc, true)
+		if err != nil || len(m1) > 4000 {
+			rt.Skip("too big")
+		}
+		client := hello.Record(22, 0x0303, m1)
+		var backend []byte
+		switch rapid.IntRange(0, 2).Draw(rt, "flow") {
+		case 0: // accepted, then handshake-ish records
+			client = append(client, hello.Record(20, 0x0303, []byte{1})...)
+			client = append(client, hello.Record(23, 0x0303, []byte("application data"))...)
+			backend = append(hello.Record(22, 0x0303, serverHelloMsg(make([]byte, 32), tp.Outer.SessionID, []hello.Ext{{Type: 43, Data: []byte{3, 4}}})), hello.Record(23, 0x0303, []byte("encrypted extensions"))...)
+		case 1: // HRR and a well-formed retried hello
+			in2 := tp.Inner.Clone()
+			out2 := tp.Outer.Clone()
+			m2, err := sl.SealOuter(out2, hello.Encode(hello.Compress(in2, tp.RunStart, tp.RunLen), nil), false)
+			if err != nil || len(m2) > 4000 {
+				rt.Skip("too big")
+			}
+			client = append(client, hello.Record(20, 0x0303, []byte{1})...)
+			client = append(client, hello.Record(22, 0x0303, m2)...)
+			backend = hrrRecord(tp.Outer.SessionID)
+		default: // HRR and an ill-formed retry (no ECH)
+			out2 := tp.Outer.Clone()
+			i := out2.Find(hello.ExtECH)
+			out2.Exts = append(out2.Exts[:i], out2.Exts[i+1:]...)
+			client = append(client, hello.Record(22, 0x0303, out2.Message())...)
+			backend = hrrRecord(tp.Outer.SessionID)
+		}
+		return [3][]byte{client, backend, {0, 1, 0, 1, 0, 0, 1, 0}}
+	})
+	for i := 0; i < 24; i++ {
+		v := gen.Example(i)
+		write(v[0], v[1], v[2], true)
+	}
+	plain := rapid.Custom(func(rt *rapid.T) []byte {
+		var echBody []byte
+		if rapid.Bool().Draw(rt, "grease") {
+			echBody = hello.ECHOuterExt(1, 1, key.ID, key.Priv.PublicKey().Bytes(), hello.GenBytes(rt, "p", 60))
+		}
+		return hello.Record(22, 0x0303, hello.GenPlain(rt, "h", hello.PlainOpts{ECH: echBody, ForceSNI: key.PublicName}).Message())
+	})
+	for i := 0; i < 8; i++ {
+		write(plain.Example(i), hello.Record(23, 0x0303, []byte("x")), []byte{0, 1}, i%2 == 0)
+	}
+	t.Logf("wrote %d seeds", n)
+}
